@@ -308,6 +308,10 @@ func TestC15(t *testing.T) {
 			v, cls := c15Check(c)
 			ev.Case("gate", fmt.Sprintf("%s %v", c.Op, c.Dtypes), !baseline, cls)
 			if v != "" {
+				if again, _ := c15Check(c); again == "" {
+					t.Errorf("VERIF-INCONCLUSIVE C15 %s %v failed once (%s) and passed when repeated", c.Op, c.Dtypes, v)
+					return false
+				}
 				writeFailCase("C15", c)
 				t.Errorf("C15 violated by %s %v: %s", c.Op, c.Dtypes, v)
 				return false
